@@ -36,10 +36,25 @@ def run_schedule(recursive, pipe_tokens, scripts, ext=None):
                     if state['viol'] is None: state['viol'] = 'release() raised %r' % (ex,)
                     return
         ts = [asyncio.ensure_future(task(s)) for s in scripts] + ([asyncio.ensure_future(foreign())] if ext else [])
-        done, pending = await asyncio.wait(ts, timeout=2)
-        if pending and state['viol'] is None:
-            state['viol'] = 'deadlock/lost wake-up: %d task(s) never finished' % len(pending)
-            for p in pending: p.cancel()
+        # no wall clock decides: tasks only yield cooperatively or wait for the pipe.  A deadlock is reported when the loop is
+        # quiescent (nothing ready, nothing scheduled, no registered reader with a readable pipe) while tasks are pending.
+        import select
+        loop = asyncio.get_running_loop(); pending = set(ts); rounds = 0
+        def quiescent():
+            if len(loop._ready) > 0 or any(not h._cancelled for h in loop._scheduled): return False
+            try: loop._selector.get_key(r); registered = True
+            except KeyError: registered = False
+            if registered and select.select([r], [], [], 0)[0]: return False
+            return True
+        while pending:
+            done, pending = await asyncio.wait(pending, timeout=0.02 if rounds < 50 else 0.5)
+            if not pending: break
+            if quiescent():
+                if state['viol'] is None: state['viol'] = 'deadlock/lost wake-up: %d task(s) never finished' % len(pending)
+                break
+            rounds += 1
+            if rounds > 600: raise RuntimeError('schedule did not finish and the loop never went quiescent (machine overloaded?)')
+        for p in pending: p.cancel()
         held = getattr(sem, '_JobServerSemaphore__tokens')
         if state['viol'] is None and len(held) != 0:
             state['viol'] = 'idle semaphore still holds %d token(s) (never given back)' % len(held)
